@@ -99,6 +99,10 @@ def run(st, drv, items):
             st.outcome('%s %s %s' % (kind, ok, got if ok else ''))
             if verdict == UNSPEC:
                 st.unspec += 1
+                # a token whose acceptance is unspecified may still have its accepted VALUE pinned down (sign + radix prefix)
+                if isinstance(val, frozenset) and ok and got not in set(fmt(kind, v) for v in val):
+                    st.violation('wrong-value:%s/%s' % (route, kind), script, 'if accepted, one of %s (%s/%s/errno=%d)'
+                                 % (sorted(val), route, kind, errno), got)
                 continue
             st.validated += 1
             label = '%s/%s/errno=%d' % (route, kind, errno)
@@ -256,7 +260,7 @@ def main():
             for b in NUM:
                 sh.append(('tokens == 6', NUM, 6, 6, (a, b), ('i', 'f'), ('setopt',), [34], dl))
         engine.phase(ck, 'numeral tokens == 6 x {int,float} via cfg_setopt, stale ERANGE', shard, sh, alphabet=len(NUM))
-    ck.assumptions = ['UNSPEC numerals (leading +, sign before a radix prefix, surrounding blanks, hex floats, inf/nan, denormal/underflow) are '
+    ck.assumptions = ['UNSPEC numerals (leading +, ACCEPTANCE of a sign before a radix prefix - the accepted value is pinned to the signed reading -, surrounding blanks, hex floats, inf/nan, denormal/underflow) are '
                       'executed but not compared', 'Python int()/float() are the exact reference (float() is correctly rounded like glibc strtod)']
     ck.finish('full product over the numeral alphabet (15 symbols) / boolean alphabet up to the stated length; one conversion = token x kind x route x '
               'prior errno; non-trivial = distinct accepted values and distinct rejected tokens per kind')
